@@ -21,12 +21,15 @@ PROP = dict(
         "Comdex.C10.v1_bid_moves_and_close_distributes", "Comdex.C10.v1_bid_at_posted_price", "Comdex.C10.v1_esm_winddown_empties_custody",
         "Comdex.C10.l1_bidders_pay_le_target_and_receive_le_seized", "Comdex.C10.l1_close_custody_partial",
         "Comdex.C10.l1_bid_moves_and_close_distributes", "Comdex.C10.l1_close_custody_counterexample",
+        "Comdex.C10.price_in_band_every_reachable_state", "Comdex.C10.esm_leaves_nonvault_auction_untouched_past_end",
+        "Comdex.C10.trigger_esm_moves", "Comdex.C10.esm_trigger_repeats_counterexample", "Comdex.C10.debt_custody_every_history",
     ],
     harness_tests=["TestC10"],
     monitors=["pay_le_target", "receive_le_collateral", "books_exact", "close_distributes", "posted_price", "price_monotone", "price_in_range",
               "price_in_range_slack", "price_below_end_at_T", "start_price", "start_record", "reserve_draw_skipped", "limit_fill_overcharge",
               "proceeds_forwarded", "lend_bonus_stranded", "leftover_to_owner", "bid_refused", "leftover_to_owner_after_d7",
-              "books_exact_after_d7", "pay_le_target_after_d7", "receive_le_collateral_after_d7", "close_distributes_after_d7"],
+              "books_exact_after_d7", "pay_le_target_after_d7", "receive_le_collateral_after_d7", "close_distributes_after_d7",
+              "esm_payout_le_proceeds", "close_distributes_after_esm_trigger", "leftover_to_owner_after_esm_trigger"],
     trusted_base=[KERNEL_TB, HARNESS_TB,
                   "Base/Dec.lean (model of sdk.Dec, validated separately against the real library by harness/dec_test.go)",
                   "Model/DutchPrice.lean is hand-written from x/auction/keeper/math.go:11-31 + dutch.go:495-503,639-656 and "
@@ -48,7 +51,9 @@ PROP = dict(
                  "bidders, owner, keeper, initiator, collector, reserve and module accounts are distinct accounts",
                  "auction parameters (window, premium, discount) do not change while an auction is open",
                  "block times are whole seconds in the harness (the code truncates elapsed time to whole seconds)",
-                 "ESM / kill switch not triggered (covered by C14)"],
+                 "emergency shutdown of the app: the iterator's ESM branch is modelled and driven (price band for every initiator kind, "
+                 "TriggerEsm for vault-initiated auctions); the exact ledger theorems cover shutdown blocks for lend- / externally initiated "
+                 "auctions only (TriggerEsm pays the proceeds out while the auction stays open: finding D35); kill switch: C14"],
     rule="pure part: each line is one call of a real price helper or one real price update on a stored auction of either generation "
          "(boundary and random start prices, discounts, windows, elapsed times 0, 1, T/3, T/2, T-1, T, beyond); sequence part: each case is "
          "one position seized by the real liquidationsV2 keeper (vault sweep, keeper message, external liquidation or lend borrow; five asset pairs with "
